@@ -13,7 +13,9 @@ import (
 	"path/filepath"
 	"runtime"
 	"sort"
+	"strconv"
 	"strings"
+	"time"
 )
 
 // Prop is one property's harness.
@@ -30,6 +32,11 @@ type Prop struct {
 	// Setup/Teardown are optional.
 	Setup    func(g *G)
 	Teardown func()
+	// OpTimeout bounds one operation (default 120 s; env VERIF_OP_TIMEOUT seconds overrides). An
+	// operation that does not return is a failing input for every property here (each speaks of calls
+	// that return): the process exits with status 3 and the check attributes the operation that has
+	// no result line.
+	OpTimeout time.Duration
 }
 
 var props = map[string]*Prop{}
@@ -92,6 +99,28 @@ func safeExec(p *Prop, toks []string) (out string) {
 		}
 	}()
 	return p.Exec(toks)
+}
+
+// execDeadline runs one operation with a deadline. A goroutine cannot be killed, so on expiry the
+// process ends (status 3) with the operation named on stderr; ops.txt already holds the line.
+func execDeadline(p *Prop, toks []string, op string) string {
+	d := p.OpTimeout
+	if d == 0 {
+		d = 120 * time.Second
+	}
+	if v, err := strconv.Atoi(os.Getenv("VERIF_OP_TIMEOUT")); err == nil && v > 0 {
+		d = time.Duration(v) * time.Second
+	}
+	ch := make(chan string, 1)
+	go func() { ch <- safeExec(p, toks) }()
+	select {
+	case out := <-ch:
+		return out
+	case <-time.After(d):
+		fmt.Fprintf(os.Stderr, "op-timeout: the operation did not return within %s: %s\n", d, clip(op))
+		os.Exit(3)
+	}
+	return ""
 }
 
 func panicSite() string {
@@ -192,7 +221,7 @@ func main() {
 		// memory) it is the line of ops.txt that has no counterpart in go.out
 		fmt.Fprintln(wo, op)
 		wo.Flush()
-		out := safeExec(p, toks)
+		out := execDeadline(p, toks, op)
 		out = strings.ReplaceAll(out, "\n", " ")
 		fmt.Fprintln(wg, out)
 		wg.Flush()
